@@ -90,7 +90,7 @@ func pdfForcedCodewords(b []byte) int {
 // aztecForcedBits: minimal high-level bit count of an all->=0x80 payload.
 func aztecForcedBits(b []byte) int {
 	for _, c := range b {
-		if c < 128 {
+		if c < 128 && c != 0 {
 			return -1
 		}
 	}
@@ -266,12 +266,17 @@ func expectation(r Req) (int, string) {
 			}
 			return expDontCare, ""
 		}
-		// lower bound on what any symbol must carry
-		need := float64(bits) + math.Floor(float64(pct)*float64(bits)/100)
-		if need > float64(total) {
-			return expReject, fmt.Sprintf("%d payload bits + %d%% check bits exceed the %d bits of the size", bits, pct, total)
+		// lower bound on what any symbol must carry: the stuffed length of the minimal
+		// binary-shift encoding, less a margin for other header arrangements
+		sl := aztecStuffedLen(r.S, ws) - 3*ws
+		if sl < bits {
+			sl = bits
 		}
-		if comp && bits > 64*ws {
+		need := float64(sl) + math.Floor(float64(pct)*float64(bits)/100)
+		if need > float64(total) {
+			return expReject, fmt.Sprintf("%d stuffed payload bits + %d%% check bits exceed the %d bits of the size", sl, pct, total)
+		}
+		if comp && sl > 64*ws {
 			return expReject, "more than 64 data words in a compact symbol"
 		}
 		// upper bound of this implementation's need (stuffing + 11 extra bits), with slack
@@ -360,6 +365,9 @@ func (c10) Gen(tier string, seed int64) []fw.Unit {
 				}
 			}
 		}
+	}
+	for _, q := range azBoundaryReqs(r, tier == "thorough", false) {
+		add("aztec-capacity-boundary", q)
 	}
 	add("aztec-over", Req{Fam: "aztec", S: randBytes(r, 3000, highAB), I: []int64{0, 0}})
 	add("aztec-over", Req{Fam: "aztec", S: randBytes(r, 5000, highAB), I: []int64{33, 0}})
@@ -501,4 +509,67 @@ func (p c10) Exec(c *fw.Ctx, u *fw.Unit) {
 	if c.Rand().Intn(150) == 0 {
 		c.Sample(map[string]any{"request": req.String(), "expected": []string{"dont-care", "accept", "reject"}[exp], "why": why})
 	}
+}
+
+// aztecStuffedLen: length after bit stuffing of the minimal binary-shift encoding of
+// an all->=0x80 (or all-equal-byte) payload.
+func aztecStuffedLen(b []byte, ws int) int {
+	var bits []bool
+	add := func(v, k int) {
+		for i := k - 1; i >= 0; i-- {
+			bits = append(bits, v>>uint(i)&1 == 1)
+		}
+	}
+	rest := b
+	for len(rest) > 0 {
+		k := len(rest)
+		if k > 2078 {
+			k = 2078
+		}
+		switch {
+		case k <= 31:
+			add(31, 5)
+			add(k, 5)
+			for _, c := range rest[:k] {
+				add(int(c), 8)
+			}
+		case k <= 62:
+			add(31, 5)
+			add(31, 5)
+			for _, c := range rest[:31] {
+				add(int(c), 8)
+			}
+			add(31, 5)
+			add(k-31, 5)
+			for _, c := range rest[31:k] {
+				add(int(c), 8)
+			}
+		default:
+			add(31, 5)
+			add(0, 5)
+			add(k-31, 11)
+			for _, c := range rest[:k] {
+				add(int(c), 8)
+			}
+		}
+		rest = rest[k:]
+	}
+	// stuffing: after ws-1 equal bits a complementary bit is inserted
+	n := 0
+	for i := 0; i < len(bits); {
+		same := true
+		for j := 1; j < ws-1 && i+j < len(bits); j++ {
+			if bits[i+j] != bits[i] {
+				same = false
+				break
+			}
+		}
+		if same && i+ws-1 <= len(bits) {
+			i += ws - 1
+		} else {
+			i += ws
+		}
+		n += ws
+	}
+	return n
 }
